@@ -5,6 +5,8 @@ import (
 	"go/constant"
 	"go/token"
 	"go/types"
+	"os"
+	"regexp"
 	"runtime/debug"
 	"sort"
 	"strings"
@@ -37,7 +39,7 @@ type Options struct {
 }
 
 func DefaultOptions() Options {
-	return Options{MaxInstr: 3000000, MaxDepth: 400, MaxAlloc: 1 << 22, MaxConcretize: 64, MaxPaths: 2000000, TimeoutMS: 60000, Solver: "z3"}
+	return Options{MaxInstr: 3000000, MaxDepth: 400, MaxAlloc: 1 << 22, MaxConcretize: 64, MaxPaths: 2000000, TimeoutMS: 60000, Solver: "z3-new"}
 }
 
 // ---- control signals (Go panics used inside the interpreter) ----
@@ -102,6 +104,9 @@ type Result struct {
 	Decisions     int            `json:"decisions"`
 	InitNotes     []string       `json:"init_notes,omitempty"`
 	Truncated     string         `json:"truncated,omitempty"`
+	BatchedQueries int           `json:"batched_assert_queries"`
+	Summaries     int            `json:"summarised_calls"`
+	DecisionSites map[string]int `json:"decision_sites,omitempty"`
 	Witnesses     [][]InputVal   `json:"witnesses,omitempty"`
 	ReachTags     []string       `json:"reach_tags,omitempty"` // tags present in the harness source
 	ObservedTrace []string       `json:"observed,omitempty"` // concrete mode
@@ -115,6 +120,7 @@ type decision struct {
 	forced  bool
 	pushed  bool   // the chosen alternative is on the solver stack
 	feas    []bool // feasibility of each alternative under the path condition at first visit (nil for forced)
+	models  []map[string]uint64 // a model per feasible alternative, when known
 	events  int    // in.events at the time of the push
 }
 
@@ -183,6 +189,18 @@ type Interp struct {
 	nextIsDefer bool
 	lastWhere string
 	blockCount int64
+	overrides map[string]*ssa.Function
+	ovCache   map[*ssa.Function]*ssa.Function
+	pending   []pendingAssert
+	merge     *mergeState
+	pool      []map[string]uint64 // recent models (any path); candidates for feasibility witnesses
+	poolPos   int
+	StatPoolHits int
+	model     map[string]uint64 // an assignment satisfying the current path condition (when modelOK)
+	modelOK   bool
+	auxVars   []*sym.Term
+	evalMemo  map[int]uint64
+	StatModelHits, StatModelMiss int
 	initNotes []string
 	patCache  map[*ssa.Function]stubFn
 	named     map[string]*Cell
@@ -196,6 +214,7 @@ func (in *Interp) InitNotes() []string    { return in.initNotes }
 func New(prog *ssa.Program, opts Options) (*Interp, error) {
 	in := &Interp{prog: prog, ctx: sym.NewCtx(), opts: opts,
 		globals: map[*ssa.Global]*Cell{}, pkgInit: map[*ssa.Package]int{}, funcVals: map[*ssa.Function]*Func{}, constStr: map[*ssa.Const]Value{},
+		ovCache: map[*ssa.Function]*ssa.Function{},
 		patCache: map[*ssa.Function]stubFn{}, named: map[string]*Cell{}, elemOwner: map[*Cell]elemRef{}}
 	for i := 0; i < 256; i++ {
 		in.byteConst[i] = in.ctx.BVConst(uint64(i), 8)
@@ -224,6 +243,9 @@ func (in *Interp) Close() {
 func (in *Interp) Run(fn *ssa.Function) *Result {
 	start := time.Now()
 	res := &Result{Harness: fn.Name(), Reach: map[string]int{}, Assumes: map[string]int{}, Funcs: map[string]int{}, Stubs: map[string]int{}}
+	if in.opts.Trace {
+		res.DecisionSites = map[string]int{}
+	}
 	in.res = res
 	in.decisions = nil
 	for _, c := range in.opts.ForcePrefix {
@@ -329,6 +351,121 @@ func (in *Interp) resetPath() {
 	in.concPos = 0
 	in.curFrame = nil
 	in.lastWhere = ""
+	in.modelOK = false
+	in.model = nil
+	in.auxVars = in.auxVars[:0]
+	in.pending = nil
+}
+
+// evalModel evaluates a term under the cached model; ok=false if it cannot (no model, uninterpreted function).
+func (in *Interp) evalModel(t *sym.Term) (v uint64, ok bool) {
+	if !in.modelOK {
+		return 0, false
+	}
+	ok = true
+	memo := map[int]uint64{}
+	func() {
+		defer func() {
+			if r := recover(); r != nil {
+				ok = false
+			}
+		}()
+		v = in.ctx.Eval(t, in.model, func(name string, args []uint64) uint64 { panic("uf") }, memo)
+	}()
+	return v, ok
+}
+
+// addPool remembers a model for later witness searches.
+func (in *Interp) addPool(m map[string]uint64) {
+	if m == nil {
+		return
+	}
+	if len(in.pool) < 24 {
+		in.pool = append(in.pool, m)
+		return
+	}
+	in.pool[in.poolPos%24] = m
+	in.poolPos++
+}
+
+// evalUnder evaluates t under model m; ok=false on uninterpreted functions.
+func (in *Interp) evalUnder(t *sym.Term, m map[string]uint64, memo map[int]uint64) (v uint64, ok bool) {
+	ok = true
+	func() {
+		defer func() {
+			if r := recover(); r != nil {
+				ok = false
+			}
+		}()
+		v = in.ctx.Eval(t, m, func(name string, args []uint64) uint64 { panic("uf") }, memo)
+	}()
+	return v, ok
+}
+
+// poolWitness looks for a remembered model that satisfies the whole path condition and cond.
+func (in *Interp) poolWitness(cond *sym.Term) map[string]uint64 {
+	for i := len(in.pool) - 1; i >= 0; i-- {
+		m := in.pool[i]
+		memo := map[int]uint64{}
+		if v, ok := in.evalUnder(cond, m, memo); !ok || v != 1 {
+			continue
+		}
+		good := true
+		for j := len(in.pc) - 1; j >= 0; j-- {
+			if v, ok := in.evalUnder(in.pc[j], m, memo); !ok || v != 1 {
+				good = false
+				break
+			}
+		}
+		if good {
+			return m
+		}
+	}
+	return nil
+}
+
+// fetchModel reads a model of the current solver stack (after a sat answer).
+var noModelCache = os.Getenv("GOSYM_NOMODEL") != ""
+
+func (in *Interp) fetchModel() map[string]uint64 {
+	if noModelCache {
+		return nil
+	}
+	var ts []*sym.Term
+	for _, ir := range in.inputs {
+		ts = append(ts, ir.t)
+	}
+	ts = append(ts, in.auxVars...)
+	vals, err := in.sol.Values(ts)
+	if err != nil {
+		return nil
+	}
+	m := make(map[string]uint64, len(ts))
+	for _, t := range ts {
+		m[t.Name] = vals[t.ID]
+	}
+	in.addPool(m)
+	return m
+}
+
+// ensureModel makes sure a model of the current path condition is cached; false if none can be had.
+func (in *Interp) ensureModel() bool {
+	if in.modelOK {
+		return true
+	}
+	if in.events != in.synced {
+		return false
+	}
+	switch in.sol.Check() {
+	case sym.Sat:
+		if m := in.fetchModel(); m != nil {
+			in.model, in.modelOK = m, true
+			return true
+		}
+	case sym.Unsat:
+		panic(pathEnd{"infeasible"})
+	}
+	return false
 }
 
 func (in *Interp) runOnePath(fn *ssa.Function) {
@@ -360,6 +497,9 @@ func (in *Interp) runOnePath(fn *ssa.Function) {
 	}()
 	ret, pan := in.callFunction(fn, nil, nil, nil)
 	_ = ret
+	if pan == nil && !in.opts.ConcreteMode {
+		in.flushAsserts()
+	}
 	if pan != nil {
 		in.reportViolation("panic", pan.msg, pan.stack)
 		if in.opts.ConcreteMode {
@@ -438,6 +578,11 @@ func (in *Interp) addConstraint(t *sym.Term) {
 	if in.sol == nil {
 		return
 	}
+	if in.modelOK {
+		if v, ok := in.evalModel(t); !ok || v != 1 {
+			in.modelOK = false
+		}
+	}
 	if in.events >= in.synced {
 		in.sol.Assert(t)
 		in.synced++
@@ -450,6 +595,7 @@ func (in *Interp) addConstraint(t *sym.Term) {
 func (in *Interp) decide(k int, alts []*sym.Term) int { return in.decideX(k, alts, false) }
 
 func (in *Interp) decideX(k int, alts []*sym.Term, noCheck bool) int {
+	in.flushAsserts()
 	if in.opts.ConcreteMode {
 		panic("decide in concrete mode")
 	}
@@ -476,27 +622,66 @@ func (in *Interp) decideX(k int, alts []*sym.Term, noCheck bool) int {
 		if alts != nil {
 			in.pc = append(in.pc, alts[d.choice])
 		}
+		if in.dpos == len(in.decisions) {
+			// last replayed decision: the frontier starts here; restore the model recorded for this alternative
+			in.modelOK = false
+			if d.models != nil && d.models[d.choice] != nil {
+				in.model, in.modelOK = d.models[d.choice], true
+			}
+		}
 		return d.choice
 	}
 	// frontier: decide the feasibility of every alternative now, so that no re-execution is spent on dead ones
 	if in.events != in.synced {
 		panic(fmt.Sprintf("decide: solver stack out of sync (events %d synced %d)", in.events, in.synced))
 	}
+	if in.res.DecisionSites != nil {
+		w := "?"
+		if in.curFrame != nil {
+			w = in.curFrame.fn.Name() + "@" + in.posOf(in.curFrame.site)
+		}
+		in.res.DecisionSites[w]++
+	}
 	feas := make([]bool, k)
+	models := make([]map[string]uint64, k)
 	first := -1
 	nfeas := 0
+	known := -1 // alternative satisfied by the cached model
+	if alts != nil && !noCheck && in.ensureModel() {
+		for c := 0; c < k; c++ {
+			if v, ok := in.evalModel(alts[c]); ok && v == 1 {
+				known = c
+				break
+			}
+		}
+	}
+	if known >= 0 {
+		in.StatModelHits++
+	} else if alts != nil && !noCheck {
+		in.StatModelMiss++
+	}
 	for c := 0; c < k; c++ {
 		feas[c] = true
-		if alts != nil && !noCheck {
-			if c == k-1 && nfeas == 0 {
+		if c == known {
+			models[c] = in.model
+		} else if alts != nil && !noCheck {
+			if c == k-1 && nfeas == 0 && known < 0 {
 				// all others are infeasible: this one must hold (the path condition is satisfiable)
+			} else if w := in.poolWitness(alts[c]); w != nil {
+				models[c] = w
+				in.StatPoolHits++
 			} else {
-				switch in.sol.CheckWith(alts[c]) {
+				in.sol.Push()
+				in.sol.Assert(alts[c])
+				switch in.sol.Check() {
 				case sym.Unsat:
 					feas[c] = false
 				case sym.Unknown:
 					in.pathUnknown = true
+				case sym.Sat:
+					models[c] = in.fetchModel()
 				}
+				in.sol.Pop()
 			}
 		}
 		if feas[c] {
@@ -511,12 +696,21 @@ func (in *Interp) decideX(k int, alts []*sym.Term, noCheck bool) int {
 		if alts != nil {
 			in.sol.Assert(alts[first])
 		}
-		in.decisions = append(in.decisions, decision{choice: first, n: k, feas: feas, events: in.events, pushed: true})
+		in.decisions = append(in.decisions, decision{choice: first, n: k, feas: feas, models: models, events: in.events, pushed: true})
 		in.dpos++
 		in.events++
 		in.synced = in.events
 		if alts != nil {
 			in.pc = append(in.pc, alts[first])
+		}
+		if alts != nil {
+			if models[first] != nil {
+				in.model, in.modelOK = models[first], true
+			} else if in.modelOK {
+				if v, ok := in.evalModel(alts[first]); !ok || v != 1 {
+					in.modelOK = false
+				}
+			}
 		}
 		return first
 	}
@@ -529,6 +723,26 @@ func (in *Interp) branch(c *sym.Term) bool {
 	if c.IsConst() {
 		return c.C == 1
 	}
+	if ms := in.merge; ms != nil {
+		// summarising a pure scalar callee: follow / extend the local decision vector, no solver
+		var take bool
+		if ms.pos < len(ms.prefix) {
+			take = ms.prefix[ms.pos]
+		} else {
+			take = true
+			ms.prefix = append(ms.prefix, true)
+			if len(ms.prefix) > 24 {
+				panic(mergeAbort{})
+			}
+		}
+		ms.pos++
+		if take {
+			ms.conds = append(ms.conds, c)
+		} else {
+			ms.conds = append(ms.conds, in.ctx.Not(c))
+		}
+		return take
+	}
 	if in.opts.ConcreteMode {
 		panic("symbolic branch in concrete mode: " + c.String())
 	}
@@ -540,6 +754,7 @@ func (in *Interp) concretize(t *sym.Term, why string) uint64 {
 	if t.IsConst() {
 		return t.C
 	}
+	in.flushAsserts()
 	for n := 0; ; n++ {
 		if n >= in.opts.MaxConcretize {
 			panic(boundExceeded{"concretize cap reached for " + why})
@@ -547,6 +762,8 @@ func (in *Interp) concretize(t *sym.Term, why string) uint64 {
 		var v uint64
 		if in.dpos < len(in.decisions) {
 			v = in.decisions[in.dpos].payload
+		} else if mv, ok := in.evalModelIfReady(t); ok {
+			v = mv
 		} else {
 			// frontier: ask the solver for a value
 			r := in.sol.Check()
@@ -571,6 +788,13 @@ func (in *Interp) concretize(t *sym.Term, why string) uint64 {
 	}
 }
 
+func (in *Interp) evalModelIfReady(t *sym.Term) (uint64, bool) {
+	if !in.ensureModel() {
+		return 0, false
+	}
+	return in.evalModel(t)
+}
+
 func (in *Interp) constLike(t *sym.Term, v uint64) *sym.Term {
 	switch t.S.K {
 	case sym.KBool:
@@ -593,7 +817,7 @@ func (in *Interp) site() string {
 	return fr.fn.Name() + "@" + in.posOf(fr.site)
 }
 
-func (in *Interp) model() []InputVal {
+func (in *Interp) modelInputs() []InputVal {
 	var out []InputVal
 	if in.sol == nil {
 		for _, ir := range in.inputs {
@@ -617,6 +841,9 @@ func (in *Interp) model() []InputVal {
 }
 
 func (in *Interp) reportViolation(kind, msg, stack string) {
+	if !in.opts.ConcreteMode {
+		in.flushAsserts()
+	}
 	v := Violation{Kind: kind, Msg: msg, Site: in.site(), Stack: stack, Path: in.res.Paths, Observed: in.observed, Tags: in.tags}
 	if in.sol != nil {
 		r := in.sol.Check()
@@ -629,9 +856,9 @@ func (in *Interp) reportViolation(kind, msg, stack string) {
 			in.res.Inconclusive = append(in.res.Inconclusive, "unknown: cannot produce model for "+kind+" "+msg+" at "+v.Site)
 			return
 		}
-		v.Inputs = in.model()
+		v.Inputs = in.modelInputs()
 	} else {
-		v.Inputs = in.model()
+		v.Inputs = in.modelInputs()
 	}
 	in.res.Violations = append(in.res.Violations, v)
 }
@@ -649,45 +876,88 @@ func (in *Interp) assertProp(c *sym.Term, msg string) {
 			in.reportViolation("assert", msg, in.stackString())
 			panic(pathEnd{"violation"})
 		}
+		in.flushAsserts()
 		res.Obligations++
 		in.reportViolation("assert", msg, in.stackString())
 		panic(pathEnd{"violation"})
 	}
-	if in.events < in.synced {
-		// replayed prefix: this obligation was decided on an earlier path
-		in.addConstraint(c)
+	// batched: consecutive assertions with no solver-visible event in between are decided by one query
+	in.pending = append(in.pending, pendingAssert{c: c, msg: msg, site: in.site(), stack: in.stackString()})
+}
+
+type pendingAssert struct {
+	c     *sym.Term
+	msg   string
+	site  string
+	stack string
+}
+
+// flushAsserts decides the pending assertions. Must be called before anything else touches the solver.
+func (in *Interp) flushAsserts() {
+	if len(in.pending) == 0 {
 		return
 	}
-	res.Obligations++
-	if len(res.Samples) < 12 {
-		s := fmt.Sprintf("%s: assert %q: PC(%d conj) => %s", in.site(), msg, len(in.pc), c.String())
-		if len(s) > 600 {
-			s = s[:600] + "…"
+	pend := in.pending
+	in.pending = nil
+	res := in.res
+	if in.events < in.synced {
+		// replayed prefix: these obligations were decided on an earlier path
+		for _, p := range pend {
+			in.addConstraint(p.c)
 		}
-		res.Samples = append(res.Samples, s)
+		return
 	}
-	in.sol.Push()
-	in.sol.Assert(in.ctx.Not(c))
-	r := in.sol.Check()
-	switch r {
-	case sym.Unsat:
-		in.sol.Pop()
-		res.Discharged++
-		in.addConstraint(c)
-	case sym.Sat:
-		v := Violation{Kind: "assert", Msg: msg, Site: in.site(), Stack: in.stackString(), Path: res.Paths, Observed: in.observed, Tags: in.tags}
-		v.Inputs = in.model()
-		in.sol.Pop()
-		res.Violations = append(res.Violations, v)
-		panic(pathEnd{"violation"})
-	default:
-		in.sol.Pop()
-		res.Inconclusive = append(res.Inconclusive, "unknown: assertion "+msg+" at "+in.site())
-		in.addConstraint(c)
+	for _, p := range pend {
+		res.Obligations++
+		if len(res.Samples) < 12 {
+			s := fmt.Sprintf("%s: assert %q: PC(%d conj) => %s", p.site, p.msg, len(in.pc), p.c.String())
+			if len(s) > 600 {
+				s = s[:600] + "…"
+			}
+			res.Samples = append(res.Samples, s)
+		}
+	}
+	if len(pend) > 1 {
+		cs := make([]*sym.Term, len(pend))
+		for i, p := range pend {
+			cs[i] = p.c
+		}
+		all := in.ctx.And(cs...)
+		if in.sol.CheckWith(in.ctx.Not(all)) == sym.Unsat {
+			res.Discharged += len(pend)
+			res.BatchedQueries++
+			for _, p := range pend {
+				in.addConstraint(p.c)
+			}
+			return
+		}
+	}
+	// one by one (also the fallback when the conjunction is not valid)
+	for _, p := range pend {
+		in.sol.Push()
+		in.sol.Assert(in.ctx.Not(p.c))
+		r := in.sol.Check()
+		switch r {
+		case sym.Unsat:
+			in.sol.Pop()
+			res.Discharged++
+			in.addConstraint(p.c)
+		case sym.Sat:
+			v := Violation{Kind: "assert", Msg: p.msg, Site: p.site, Stack: p.stack, Path: res.Paths, Observed: in.observed, Tags: in.tags}
+			v.Inputs = in.modelInputs()
+			in.sol.Pop()
+			res.Violations = append(res.Violations, v)
+			panic(pathEnd{"violation"})
+		default:
+			in.sol.Pop()
+			res.Inconclusive = append(res.Inconclusive, "unknown: assertion "+p.msg+" at "+p.site)
+			in.addConstraint(p.c)
+		}
 	}
 }
 
 func (in *Interp) assume(c *sym.Term) {
+	in.flushAsserts()
 	if c.IsConst() {
 		if c.C == 0 {
 			if in.opts.ConcreteMode {
@@ -699,10 +969,18 @@ func (in *Interp) assume(c *sym.Term) {
 	}
 	in.res.Assumes[in.site()]++
 	if in.events >= in.synced {
-		// new on the solver: check satisfiable
+		// new on the solver: check satisfiable (the cached model may already show it)
 		in.addConstraint(c)
-		if in.sol.Check() == sym.Unsat {
+		if in.modelOK {
+			return
+		}
+		switch in.sol.Check() {
+		case sym.Unsat:
 			panic(pathEnd{"assume"})
+		case sym.Sat:
+			if m := in.fetchModel(); m != nil {
+				in.model, in.modelOK = m, true
+			}
 		}
 		return
 	}
@@ -745,6 +1023,121 @@ func (in *Interp) fresh(name, kind string, s sym.Sort) *sym.Term {
 	return t
 }
 
+type mergeState struct {
+	prefix []bool
+	pos    int
+	conds  []*sym.Term
+}
+
+type mergeAbort struct{}
+
+var summarizeRe = regexp.MustCompile(`(^|\.)(sov|soz)[A-Z]\w*$|ZanRedisDB/raft\.(min|max|voteRespMsgType|IsLocalMsg|IsResponseMsg)$`)
+
+// summarize runs a pure scalar function on all of its local paths and merges the results into one ite term.
+// ok=false means the function could not be summarised (panic inside, too many paths, non-scalar result).
+func (in *Interp) summarize(fn *ssa.Function, args []Value) (res Value, ok bool) {
+	if in.merge != nil || in.opts.ConcreteMode || in.initMode {
+		return nil, false
+	}
+	for _, a := range args {
+		if _, isT := a.(*sym.Term); !isT {
+			return nil, false
+		}
+	}
+	type outcome struct {
+		cond *sym.Term
+		val  *sym.Term
+	}
+	var outs []outcome
+	var prefix []bool
+	saveFrame, saveDepth := in.curFrame, in.depth
+	defer func() {
+		in.merge = nil
+		in.curFrame, in.depth = saveFrame, saveDepth
+		if r := recover(); r != nil {
+			if _, isAbort := r.(mergeAbort); isAbort {
+				res, ok = nil, false
+				return
+			}
+			panic(r)
+		}
+	}()
+	for n := 0; ; n++ {
+		if n > 128 {
+			panic(mergeAbort{})
+		}
+		ms := &mergeState{prefix: prefix}
+		in.merge = ms
+		v, pan := in.callFunctionBody(fn, args, nil)
+		if pan != nil {
+			panic(mergeAbort{})
+		}
+		t, isT := v.(*sym.Term)
+		if !isT {
+			panic(mergeAbort{})
+		}
+		outs = append(outs, outcome{in.ctx.And(ms.conds...), t})
+		// next local path: flip the last 'true' decision
+		prefix = ms.prefix[:ms.pos]
+		i := len(prefix) - 1
+		for i >= 0 && !prefix[i] {
+			i--
+		}
+		if i < 0 {
+			break
+		}
+		prefix = append(append([]bool(nil), prefix[:i]...), false)
+	}
+	in.merge = nil
+	r := outs[len(outs)-1].val
+	for i := len(outs) - 2; i >= 0; i-- {
+		r = in.ctx.Ite(outs[i].cond, outs[i].val, r)
+	}
+	in.res.Summaries++
+	return r, true
+}
+
+// overrideFor finds a harness-supplied Go model for a library function: a function named
+// VerifModel_<pkg>_<Type>_<Method> (or VerifModel_<pkg>_<Func>) in any loaded package replaces
+// <pkg>.<Type>.<Method>; it receives the receiver as its first parameter and is symbolically
+// executed like any other code.
+func (in *Interp) overrideFor(fn *ssa.Function) *ssa.Function {
+	if in.overrides == nil {
+		in.overrides = map[string]*ssa.Function{}
+		for _, p := range in.prog.AllPackages() {
+			for name, m := range p.Members {
+				if f, ok := m.(*ssa.Function); ok && strings.HasPrefix(name, "VerifModel_") {
+					in.overrides[strings.TrimPrefix(name, "VerifModel_")] = f
+				}
+			}
+		}
+	}
+	if len(in.overrides) == 0 {
+		return nil
+	}
+	if ov, ok := in.ovCache[fn]; ok {
+		return ov
+	}
+	var key string
+	path := fnPkgPath(fn)
+	last := path
+	if i := strings.LastIndex(path, "/"); i >= 0 {
+		last = path[i+1:]
+	}
+	if rn := recvName(fn); rn != "" {
+		tn := rn[strings.LastIndex(rn, ".")+1:]
+		key = last + "_" + tn + "_" + fn.Name()
+	} else if fn.Signature.Recv() == nil && fn.Pkg != nil {
+		key = last + "_" + fn.Name()
+	}
+	ov := in.overrides[key]
+	if ov == fn {
+		ov = nil
+	}
+	in.ovCache[fn] = ov
+	return ov
+}
+
 // ---- function calls ----
 
 func (in *Interp) funcVal(fn *ssa.Function) *Func {
@@ -769,6 +1162,10 @@ func (in *Interp) callFunction(fn *ssa.Function, args []Value, env []Value, site
 	if fn.Synthetic == "package initializer" && in.curFrame != nil {
 		return nil, nil // imported packages initialise lazily
 	}
+	if ov := in.overrideFor(fn); ov != nil {
+		in.res.Stubs["model:"+fn.String()]++
+		return in.callFunction(ov, args, nil, site)
+	}
 	name := fn.String()
 	if st, ok := in.stubs[name]; ok {
 		in.res.Stubs[name]++
@@ -785,6 +1182,16 @@ func (in *Interp) callFunction(fn *ssa.Function, args []Value, env []Value, site
 		in.res.Stubs[name]++
 		return in.callStub(st, fn, args)
 	}
+	if in.merge == nil && len(args) > 0 && summarizeRe.MatchString(name) {
+		if v, ok := in.summarize(fn, args); ok {
+			return v, nil
+		}
+	}
+	return in.callFunctionBody(fn, args, env)
+}
+
+// callFunctionBody interprets the SSA body of fn.
+func (in *Interp) callFunctionBody(fn *ssa.Function, args []Value, env []Value) (ret Value, pan *goPanic) {
 	in.depth++
 	if in.depth > in.opts.MaxDepth {
 		panic(boundExceeded{"call depth"})
@@ -943,6 +1350,14 @@ func (in *Interp) globalCell(g *ssa.Global) *Cell {
 	c := in.allocType(g.Type().(*types.Pointer).Elem())
 	in.epoch = save
 	in.globals[g] = c
+	if g.Pkg != nil && g.Pkg.Pkg.Path() == "os" && (g.Name() == "Stdout" || g.Name() == "Stderr" || g.Name() == "Stdin") {
+		// opaque standard streams: a distinct *os.File each, never written through in modelled code
+		save := in.epoch
+		in.epoch = 0
+		c.v = Ptr{in.allocType(g.Type().(*types.Pointer).Elem().(*types.Pointer).Elem())}
+		in.epoch = save
+		return c
+	}
 	if g.Pkg != nil {
 		in.ensureInit(g.Pkg)
 		switch in.pkgInit[g.Pkg] {
